@@ -3,6 +3,8 @@
 cd "$(dirname "$0")/.."
 WT=$1; PATCH=$2; shift 2
 git -C $WT checkout -q -- . && git -C $WT clean -fdq
+# the worktree follows /repo's HEAD (hook commits made after the worktree was created are needed to build the harness)
+git -C $WT checkout -q --detach $(git -C ${VERIF_BASE_REPO:-/repo} rev-parse HEAD) 2>/dev/null
 if ! git -C $WT apply $PATCH; then echo "PATCH-DOES-NOT-APPLY $PATCH"; exit 2; fi
 for p in "$@"; do
   out=$(VERIF_REPO=$WT timeout 1200 ./check $p --tier ${TIER:-quick} 2>&1)
